@@ -103,6 +103,7 @@ class Gen:
         self.funcs = []
         self.classes = []
         self.nf = 0
+        self.col0 = False
 
     # ---- simple statements -------------------------------------------------------------------
     def simple(self, allow_err=True, in_func=False):
@@ -194,6 +195,14 @@ class Gen:
                 out.append(ind + txt + ('  # c' if r.random() < 0.08 else ''))
             if r.random() < 0.1:
                 out.append(ind + '# comment line')
+            # physical lines that start in column 0 although the block goes on: a comment, the tail of a bracketed expression, the tail of a
+            # triple-quoted string.  None of them ends the block.
+            if r.random() < 0.10:
+                out.append('# comment in column 0')
+                self.col0 = True
+            if r.random() < 0.08:
+                out += r.choice([[ind + 'u = [n,', '2]'], [ind + 'u = (n +', '1)'], [ind + 'u = """a', 'b"""'], [ind + "u = '''a", '', "b'''"], [ind + 'print(n,', '# inner', 's)']])
+                self.col0 = True
         return out
 
     def compound_lines(self, depth, ind, in_func=False):
@@ -288,10 +297,14 @@ class Gen:
         return L, tags, kind
 
     def stmt_compound(self):
+        self.col0 = False
         L, tags, kind = self.compound_lines(0, '')
+        if self.col0:
+            tags = tags | {'column-0-line-inside-block'}
         if len(L) == 1:
             return {'lines': L, 'text': L[0] + '\n', 'tags': tags | {'one-line-compound'}, 'kind': 'one-line-compound'}
-        if self.r.random() < 0.06:
+        if self.r.random() < 0.06 and '' not in L:
+            # (not when a blank line sits inside the statement: the error is then legitimately reported there and the rest is read as new input)
             # a syntax error in the middle of a multi-line statement: reported at the latest on the blank line, nothing executed
             pos = self.r.randrange(1, len(L))
             ind = L[pos][:len(L[pos]) - len(L[pos].lstrip())]
